@@ -9,6 +9,11 @@ import sqlite3
 from ..gen import sqlgen
 
 
+import re
+
+_LONG_FRACTION = re.compile(r"(\d+\.\d{6})\d{4,}")
+
+
 def norm_value(v):
     if isinstance(v, bool):
         return int(v)
@@ -23,6 +28,10 @@ def norm_value(v):
         return v.isoformat()
     if isinstance(v, (bytes, bytearray)):
         return bytes(v).hex()
+    if isinstance(v, str) and "." in v:
+        # a float written as text by the engine itself (CAST(AVG(x) AS TEXT), '' || 1.0 / 3): SQLite prints 15 significant
+        # digits, DuckDB 17. Like floats, such digit runs are compared to 6 decimals
+        return _LONG_FRACTION.sub(r"\1", v)
     return v
 
 
